@@ -660,16 +660,32 @@ func rulePublish(c *Ctx) {
 					continue
 				}
 				reaches := false
-				for _, cal := range ci.calleesOf(call) {
-					if inModule(cal) && reachesPublish(cal) {
-						reaches = true
-					}
-				}
+				// function values handed to the call: what THIS call can publish through them is decided by them,
+				// not by what other call sites hand to the same helper
+				nFuncArgs := 0
 				for _, a := range call.Common().Args {
-					if mc, ok := a.(*ssa.MakeClosure); ok {
-						if fn, ok := mc.Fn.(*ssa.Function); ok && reachesPublish(fn) {
+					if _, isSig := a.Type().Underlying().(*types.Signature); !isSig {
+						continue
+					}
+					nFuncArgs++
+					if fn := resolveLocalFunc(a); fn != nil {
+						if reachesPublish(fn) {
 							reaches = true
 						}
+					} else {
+						reaches = true // a function value of unknown origin
+					}
+				}
+				for _, cal := range ci.calleesOf(call) {
+					if !inModule(cal) {
+						continue
+					}
+					if nFuncArgs > 0 {
+						if reachesPublishWithoutParams(ci, cal) {
+							reaches = true
+						}
+					} else if reachesPublish(cal) {
+						reaches = true
 					}
 				}
 				if reaches {
@@ -1649,4 +1665,40 @@ func taintWrites(ci *concInfo, seeds map[*ssa.Function]string) []taintSink {
 	}
 	sort.Slice(out, func(i, j int) bool { return out[i].pos < out[j].pos })
 	return out
+}
+
+// reachesPublishWithoutParams: root reaches a PublishDiagnostics call through calls that do not go through a
+// function-valued parameter (what it publishes on its own, whatever callback it is handed).
+func reachesPublishWithoutParams(ci *concInfo, root *ssa.Function) bool {
+	seen := map[*ssa.Function]bool{root: true}
+	work := []*ssa.Function{root}
+	for len(work) > 0 {
+		f := work[len(work)-1]
+		work = work[:len(work)-1]
+		for _, b := range f.Blocks {
+			for _, ins := range b.Instrs {
+				if call, ok := ins.(ssa.CallInstruction); ok && isPublishCall(call) {
+					return true
+				}
+			}
+		}
+		n := ci.g.Nodes[f]
+		if n == nil {
+			continue
+		}
+		for _, e := range n.Out {
+			if e.Site == nil || e.Callee.Func == nil || seen[e.Callee.Func] {
+				continue
+			}
+			if _, isGo := e.Site.(*ssa.Go); isGo {
+				continue
+			}
+			if e.Site.Common().StaticCallee() == nil && !e.Site.Common().IsInvoke() && calledIsParameter(e.Site.Common().Value) {
+				continue // a call of a function value received as a parameter
+			}
+			seen[e.Callee.Func] = true
+			work = append(work, e.Callee.Func)
+		}
+	}
+	return false
 }
